@@ -210,7 +210,17 @@ func (u *memUniverse) genOp(rng *RNG, writers *[]string) string {
 	case 77, 78, 79, 80:
 		return fmt.Sprintf("mem referrers %s %s", tok(repo), tok(d))
 	case 81, 82, 83:
-		*writers = append(*writers, repo+"\x00@"+strconv.Itoa(len(*writers)))
+		if ociref.IsValidRepository(repo) {
+			// the registry names its sessions itself; the protocol calls them @0, @1, … in order of
+			// creation (only successful starts count, and resumed sessions are not new ones)
+			fresh := 0
+			for _, w := range *writers {
+				if strings.Contains(w, "\x00@") {
+					fresh++
+				}
+			}
+			*writers = append(*writers, repo+"\x00@"+strconv.Itoa(fresh))
+		}
 		return fmt.Sprintf("mem pushchunked %s", tok(repo))
 	case 84, 85:
 		id := pick(rng, u.ids)
@@ -363,6 +373,11 @@ func (r *trkRepo) protect() {
 			return
 		}
 		r.protected[d] = true
+		// what the manifest references under the media type it has NOW, while reachable from a tag, is
+		// retained from now on (references it had under another type while no tag led to it are not)
+		if m, ok := r.manifests[d]; ok {
+			r.refsEver[d] = append(r.refsEver[d], m.refs...)
+		}
 		for _, ref := range r.refsEver[d] {
 			if ref.kind != 2 { // a subject may dangle and is not retained
 				visit(ref.digest)
@@ -708,7 +723,6 @@ func memOracle(c Case, impl []string, wire bool) []Failure {
 				fail("mem-accepts-bad-tag", "manifest_accepted_iff", "err")
 			}
 			r.manifests[dg] = trkManifest{[]byte(data), mt, subject, refs}
-			r.refsEver[dg] = append(r.refsEver[dg], refs...)
 			if tag != "" {
 				r.tags[tag] = ociregistry.Descriptor{MediaType: mt, Digest: ociregistry.Digest(dg), Size: int64(len(data))}
 			}
